@@ -19,7 +19,7 @@ from fractions import Fraction
 
 import numpy as np
 
-from .core import coq, Some, Raw
+from .core import coq, Some, Raw, CoqEvalError
 
 PID = 'C19'
 FILES = ['lib/Cases.v', 'C19_Model.v', 'C19_Proofs.v', 'C19_Properties.v']
@@ -814,8 +814,38 @@ def check_history(ctx, rep, spec, raw, ops, want_ee=True):
     return trace, final, ee, ok
 
 
+def safe_coq_eval(ctx, terms):
+    """check_case on all terms; if a shard fails or times out, re-run in small groups and bisect, so that one
+    slow case cannot sink the run. Returns (indices that disagree, indices that could not be evaluated)."""
+    try:
+        return ctx.coq_eval_cases(['C19_Model'], 'check_case', terms, case_type='case', timeout=150), []
+    except CoqEvalError:
+        ctx.stat('coq', 'shard-failed:bisecting')
+    bad, dead = [], []
+    counter = [0]
+
+    def rec(idx):
+        counter[0] += 1
+        try:
+            b = ctx.coq_eval_cases(['C19_Model'], 'check_case', [terms[i] for i in idx], case_type='case',
+                                   tag=f'retry{counter[0]}', timeout=60)
+            bad.extend(idx[j] for j in b)
+        except CoqEvalError:
+            if len(idx) == 1:
+                dead.append(idx[0])
+            else:
+                rec(idx[:len(idx) // 2])
+                rec(idx[len(idx) // 2:])
+    n = len(terms)
+    for a in range(0, n, 64):
+        rec(list(range(a, min(n, a + 64))))
+    return sorted(bad), sorted(dead)
+
+
 def run(ctx):
-    ctx.build(FILES)
+    ctx.build_with_translator(FILES, extra_files=['C01_Model.v', 'C01_Proofs.v', 'C01R_Model.v', 'C01R_Proofs.v', 'C19M_Proofs.v',
+                                                  'C19M_RProofs.v', 'C19M_Properties.v'],
+                              extra_obligation_files=['C19M_Properties.v'])   # weights monotone in the radius
     rep = Reporter(ctx)
     try:
         _run(ctx, rep)
@@ -882,8 +912,13 @@ def _run(ctx, rep):
                         'impl_area': raw['area'].tolist(), 'final': {k: (None if v is None else np.asarray(v).tolist())
                                                                      for k, v in final.items() if k in ('nv', 'profile', 'profile_error', 'data_profile')}})
     ctx.stat('coq', 'skipped:non-dyadic-weights', skipped)
-    bad = ctx.coq_eval_cases(['C19_Model'], 'check_case', coq_cases, case_type='case')
+    bad, dead = safe_coq_eval(ctx, coq_cases)
     ctx.stat('coq', 'disagreements', len(bad))
+    ctx.stat('coq', 'could-not-evaluate', len(dead))
+    for i in dead[:3]:
+        spec, ops = coq_meta[i][0], coq_meta[i][1]
+        rep.add('correspondence:C19_Model.check_case:could-not-evaluate', 'the model could not be evaluated on this case '
+                'within the time limit (no verdict)', {'type': 'history', 'spec': describe(spec, ops)}, found_input=False)
     shown = 0
     for i in bad:
         spec, ops, ok, raw, trace, final, ee = coq_meta[i]
